@@ -206,3 +206,4 @@ def run(rep, programs):
     # the ownership model starts from the initial state: free-all / allocate-all mark every frame consistently in entries and bitfields
     from props import c06
     c06.r_init_coverage(rep, prog)
+    c01.r_toggle_dispatch(rep, prog)
